@@ -84,8 +84,7 @@ def validateResultPath (fs : P → Kind) (repoDir rel : P) : Except PathErr P :=
     | .missing => .error .missing
     | .blocked => .error .access
     | .file => .ok c
-    | .other => .ok c            -- only directories are refused (a FIFO passes)
-    | .dir => .error .notFile
+    | _ => .error .notFile       -- directories, FIFOs, devices
 
 inductive FindErr where | notDir (p : P) | notFound | statErr
   deriving DecidableEq, Repr, Inhabited
